@@ -117,11 +117,58 @@ class Interp:
         if isinstance(v, str):
             st.emit_text(v)
             return
+        if self.ARG is not None and any(isinstance(x, ast.Name) and x.id == self.ARG for x in ast.walk(e)):
+            # the argument emitted as a whole: <literal> + arg + <literal>.  Sound only where the argument is known to hold no
+            # double quote (then every backslash in it is literal -- except a trailing run before a closing quote)
+            parts = self.whole_argument(e)
+            if parts is None:
+                raise AnalysisError('T30: emitted expression `%s` (uses the whole argument) is not understood' % txt(e))
+            if st.conds.get('has:' + QT) is not False:
+                st.conds['raw_with_quote'] = True
+            for kind, val in parts:
+                if kind == 'lit':
+                    st.emit_text(val)
+                else:
+                    st.emits.append(('raw',))
+            return
         cnt = self.bs_count(e, st)
         if cnt is not None:
             st.emit_bs(cnt)
             return
         raise AnalysisError('T30: emitted expression `%s` is not understood' % txt(e))
+
+    def whole_argument(self, e):
+        """[('lit', text) | ('raw', None)] for <literals around the argument>, or None"""
+        if isinstance(e, ast.Name) and e.id == self.ARG:
+            return [('raw', None)]
+        if isinstance(e, ast.BinOp) and isinstance(e.op, ast.Add):
+            a, b = self.whole_argument(e.left), self.whole_argument(e.right)
+            if a is None:
+                va = self.cval(e.left)
+                a = [('lit', va)] if isinstance(va, str) else None
+            if b is None:
+                vb = self.cval(e.right)
+                b = [('lit', vb)] if isinstance(vb, str) else None
+            return a + b if a is not None and b is not None else None
+        if isinstance(e, ast.BinOp) and isinstance(e.op, ast.Mod) and isinstance(e.left, ast.Constant) and isinstance(e.left.value, str):
+            r = e.right.elts[0] if isinstance(e.right, ast.Tuple) and len(e.right.elts) == 1 else e.right
+            fmt = e.left.value
+            if isinstance(r, ast.Name) and r.id == self.ARG and fmt.count('%s') == 1 and fmt.count('%') == 1:
+                pre, post = fmt.split('%s')
+                return [('lit', pre), ('raw', None), ('lit', post)]
+            return None
+        if isinstance(e, ast.JoinedStr):
+            out = []
+            for v in e.values:
+                if isinstance(v, ast.Constant) and isinstance(v.value, str):
+                    out.append(('lit', v.value))
+                elif isinstance(v, ast.FormattedValue) and isinstance(v.value, ast.Name) and v.value.id == self.ARG and \
+                        v.conversion == -1 and v.format_spec is None:
+                    out.append(('raw', None))
+                else:
+                    return None
+            return out
+        return None
 
     def count_value(self, e, st):
         """Lin value of an integer expression made of int constants, len(BUF), count-valued locals and products with ints"""
@@ -273,6 +320,19 @@ class Interp:
             s0.conds['first'] = True
             s1.conds['first'] = False
             return [(False != neg, s0), (True != neg, s1)]
+        # `<char> in arg` / `<char> not in arg`: a fact about the whole argument
+        if isinstance(e, ast.Compare) and len(e.ops) == 1 and isinstance(e.ops[0], (ast.In, ast.NotIn)) and \
+                isinstance(e.comparators[0], ast.Name) and e.comparators[0].id == self.ARG:
+            ch = self.cval(e.left)
+            if isinstance(ch, str) and len(ch) == 1:
+                key = 'has:' + ch
+                flip = neg != isinstance(e.ops[0], ast.NotIn)
+                if key in st.conds:
+                    return [(st.conds[key] != flip, st)]
+                s0, s1 = st.clone(), st.clone()
+                s0.conds[key] = False
+                s1.conds[key] = True
+                return [(False != flip, s0), (True != flip, s1)]
         raise AnalysisError('T30: test `%s` is not understood' % txt(test))
 
     # ---- statements ---------------------------------------------------------------------------
@@ -482,6 +542,21 @@ def check(ctx, fn, BUF, OUT, CH, NQ, rule='T30', outer=None, helper_call=None):
             det = 'statements after the pieces of an argument are added: not understood'
         report('an argument is preceded by a blank unless it is the first (in the caller of the per-argument helper)', ok, ol, det)
     outs = I.run(prefix, State(Lin(1, 0)))
+    # a path of the prefix that emits the argument as a whole and skips the character loop
+    whole = [(st, oc) for st, oc in outs if any(e[0] == 'raw' for e in st.emits)]
+    outs = [(st, oc) for st, oc in outs if not any(e[0] == 'raw' for e in st.emits)]
+    for st, oc in whole:
+        first, nq = st.conds.get('first'), st.conds.get('nq')
+        got = [e for e in st.normal(True) if e[0] != 'bs']
+        sepw = [] if first in (True, None) else [('lit', ' ')]
+        # sound only for an argument without a double quote, emitted unquoted (k trailing backslashes stay k), as the last thing
+        # done for the argument.  Inside quotes the trailing backslashes would have to be doubled before the closing quote.
+        okw = oc == 'continue' and 'raw_with_quote' not in st.conds and nq is False and got == sepw + [('raw',)]
+        why = 'the argument may contain a double quote' if 'raw_with_quote' in st.conds else \
+            'a quoted argument is emitted as it is: its trailing backslashes are not doubled before the closing quote' if nq is not False \
+            else 'emits %s' % got
+        report('an argument emitted as a whole (fast path) holds no double quote and is not quoted', okw, prefix[0] if prefix else al,
+               '' if okw else why)
     reset_in_prefix = bool(outs) and all(st.pend.key() == (0, 0) for st, oc in outs)
     if not reset_in_prefix:
         # accepted alternative: reset at the end of every argument and before the first one
